@@ -13,7 +13,7 @@ Has == l <= Len(Trace)
 
 Load(sc) ==
   /\ crecs = sc.crecs /\ brecs = sc.brecs /\ cutAt = sc.cutAt /\ cutKind = sc.cutKind
-  /\ firstIn = sc.firstIn /\ firstOut = sc.firstOut /\ accepted = sc.accepted
+  /\ firstIn = sc.firstIn /\ firstOut = sc.firstOut /\ accepted = sc.accepted /\ bigHdr \in BOOLEAN /\ (bigHdr \/ HasBig(sc.crecs))
 
 TraceInit == l = 2 /\ Load(Trace[1].scen) /\ InitState
 
@@ -27,7 +27,7 @@ ObsRead ==
 ObsWrite ==
   /\ Has /\ Ev.e = "write"
   /\ Write(Ev.k)
-  /\ lastWrite' = [n |-> Ev.n, err |-> Ev.err]
+  /\ lastWrite'.err = Ev.err /\ (Ev.err = "none" => lastWrite'.n = Ev.n)      \* the count returned with an error is not specified
   /\ wfwd' = Ev.fwd /\ Ev.wok
   /\ l' = l + 1
 
@@ -37,7 +37,7 @@ ObsReset ==
   /\ Has /\ Ev.e = "reset" /\ Trace[l-1].e = "end"
   /\ LET sc == Ev.scen IN
      /\ crecs' = sc.crecs /\ brecs' = sc.brecs /\ cutAt' = sc.cutAt /\ cutKind' = sc.cutKind
-     /\ firstIn' = sc.firstIn /\ firstOut' = sc.firstOut /\ accepted' = sc.accepted
+     /\ firstIn' = sc.firstIn /\ firstOut' = sc.firstOut /\ accepted' = sc.accepted /\ bigHdr' \in BOOLEAN /\ (bigHdr' \/ HasBig(sc.crecs))
      /\ tpos' = sc.firstIn /\ ri' = 1 /\ lo' = 0 /\ hi' = sc.firstOut /\ rErr' = "none" /\ outTotal' = sc.firstOut /\ outpos' = 0
      /\ rPass' = ~sc.accepted /\ repl' = FALSE /\ lastRead' = [n |-> -1, err |-> "none"]
      /\ wtaken' = 0 /\ wfwd' = 0 /\ bi' = 1 /\ wPass' = ~sc.accepted /\ armed' = FALSE /\ wErr' = FALSE
